@@ -209,8 +209,9 @@ def main():
                 except Exception as e:
                     print(f"UNDECIDED property={prop}: ignore sweep did not run: {e}")
                     return 2, bounded_runs, known_bounded
-                mine = [f for f in fails if f["kind"] in cs["kinds"]]
-                bounded_runs.append(dict(scenario=f"ignore sweep: `-- stylua: ignore` above every statement and an ignore start/end region around every pair of neighbouring top-level statements of {stats['files']} test inputs x {stats['configs']} configurations = {stats['runs']} runs; the ignored source text appears verbatim in the output",
+                mine = [f for f in fails if f["kind"] in cs["kinds"] and cs.get("case_contains", "") in f["case"]]
+                bounded_runs.append(dict(scenario=(f"ignore sweep, the cases with a range ({cs['case_contains']}): `-- stylua: ignore` above a statement and the formatting range set to a statement nested in it, over {stats['files']} test inputs x {stats['configs']} configurations; the directive wins: the ignored statement, which is not wholly inside the range, keeps its text" if cs.get("case_contains") else
+                                         f"ignore sweep: `-- stylua: ignore` above every statement (alone, and with the formatting range set to a statement nested in the ignored one) and an ignore start/end region around every pair of neighbouring top-level statements of {stats['files']} test inputs x {stats['configs']} configurations = {stats['runs']} runs; the ignored source text appears verbatim in the output"),
                                          violated=bool(mine), detail=f"{len(mine)} failing runs"))
                 seen_c = set()
                 for f in mine:
